@@ -22,6 +22,9 @@ Notation rec_ok := (rec_ok rep).
 Notation torn_ok := (torn_ok crc).
 Notation file_ok := (file_ok crc rep).
 
+Ltac ssimpl := cbn [s_disk s_clock s_open s_known s_known_size s_last_id s_reading s_waiting s_waiting_size s_writing s_total
+  set_disk set_clock set_open set_known set_known_size set_last_id set_reading set_waiting set_writing set_total].
+
 (* ---------- start ---------- *)
 Lemma inv_empty : Inv empty_shard [].
 Proof.
@@ -338,7 +341,7 @@ Proof.
   assert (HW' : is_W f' = false) by (unfold is_W, f'; simpl; rewrite Rf; reflexivity).
   exists (g0 ++ [f']). split; [|rewrite !aents_snoc, Af, app_assoc; reflexivity].
   unfold append_state. cbn [mf_size]. fold id.
-  constructor; simpl.
+  constructor; ssimpl.
   - rewrite Id. apply upd_file_fenc; auto. rewrite write_at_end. symmetry. exact Ef.
   - apply Isf. reflexivity.
   - apply Forall_app. split; auto. inversion Icf; subst. constructor; auto.
@@ -368,6 +371,571 @@ Proof.
   - rewrite It, !gtotal_snoc, Bf. ring.
   - unfold id. lia.
   - apply forall_upd_open; auto.
+Qed.
+
+(* ---------- writeSecond up to the writes ---------- *)
+Lemma prepare_inv st g len age :
+  Inv st g ->
+  exists g1 w, Inv (prepare_write st len age) g1 /\ aents g1 = aents g /\
+               s_last_id (prepare_write st len age) = s_last_id st /\ s_writing (prepare_write st len age) = Some w.
+Proof.
+  intros I. unfold prepare_write.
+  destruct (rotate_needed st len age) eqn:R; destruct (s_writing st) as [w|] eqn:W.
+  - destruct (rotate_inv st g w I W) as [g' [I' [A' L']]].
+    set (st1 := set_writing None (unref st w)) in *.
+    assert (W1 : s_writing st1 = None) by reflexivity. rewrite W1.
+    destruct (create_inv st1 g' I' W1) as [I2 [A2 [L2 W2]]].
+    exists (g' ++ [newfile (s_clock st1)]), (s_clock st1).
+    split; [exact I2|]. split; [congruence|]. split; [transitivity (s_last_id st1); [exact L2|exact L']|exact W2].
+  - unfold rotate_needed in R. rewrite W in R. discriminate.
+  - try rewrite W. cbv iota. exists g, w. auto.
+  - try rewrite W. cbv iota. destruct (create_inv st g I W) as [I2 [A2 [L2 W2]]].
+    exists (g ++ [newfile (s_clock st)]), (s_clock st).
+    split; [exact I2|]. split; [exact A2|]. split; [exact L2|exact W2].
+Qed.
+
+(* PutBucket *)
+Lemma put_inv st g t data age :
+  Inv st g -> 0 <= t < two32 ->
+  let '(st', r) := put crc st t data age in
+  let '(s', r') := a_put (abs st g) t data in
+  r = r' /\ exists g', Inv st' g' /\ abs st' g' = s'.
+Proof.
+  intros I Ht. unfold put, put_gen, a_put. simpl a_last.
+  destruct (max_chunk_size <? blen data) eqn:Big.
+  - split; auto. exists g. auto.
+  - apply Z.ltb_ge in Big.
+    destruct (prepare_inv st g (blen data) age I) as [g1 [w [I1 [A1 [L1 W1]]]]].
+    rewrite W1.
+    destruct (append_inv _ g1 w t data I1 W1 Ht Big) as [m [Om [g' [I' A']]]].
+    rewrite Om. split; [rewrite L1; reflexivity|].
+    exists g'. split; [exact I'|]. unfold abs. rewrite A', A1. simpl. rewrite L1. reflexivity.
+Qed.
+
+(* ---------- a put torn after k bytes, then the start ---------- *)
+Definition set_torn (f : gfile) (tl : bytes) : gfile := GF (gf_name f) (gf_role f) (gf_next f) (gf_recs f) tl.
+
+Lemma record_bytes_length t data : length (record_bytes crc t data) = (20 + length data)%nat.
+Proof. unfold record_bytes. rewrite app_length, enc_header_length. reflexivity. Qed.
+
+Lemma put_torn_inv st g t data age k :
+  Inv st g -> 0 <= t < two32 ->
+  exists g', Inv (put_torn crc st t data age k) g' /\
+             abs (put_torn crc st t data age k) g' =
+             a_restart (if (max_chunk_size <? blen data) || (k <? 20 + blen data) then abs st g else fst (a_put (abs st g) t data)).
+Proof.
+  intros I Ht. unfold put_torn, put_gen, a_put.
+  destruct (max_chunk_size <? blen data) eqn:Big; cbn [orb].
+  - simpl fst. destruct (restart_inv st g (inv_dinv _ _ I)) as [Ir Ar]. exists (grestart g). split; auto.
+    unfold abs. rewrite Ar. reflexivity.
+  - apply Z.ltb_ge in Big.
+    destruct (prepare_inv st g (blen data) age I) as [g1 [w [I1 [A1 [L1 W1]]]]].
+    rewrite W1. set (st1 := prepare_write st (blen data) age) in *.
+    assert (D1 := inv_dinv _ _ I1). destruct D1 as [Dd Ds Dc Dr].
+    destruct I1 as [Id Is Ic Irk If Ird Iw Iws Iwr Io Ik Ind Iid Iks It Il Iod].
+    rewrite W1 in Iwr. destruct Iwr as [g0 [f [-> [Nf [Rf Wg0]]]]]. subst w.
+    assert (Of := Io f ltac:(apply in_app_iff; simpl; auto)).
+    assert (HW : is_W f = false) by (unfold is_W; rewrite Rf; reflexivity).
+    rewrite HW in Of. rewrite Of. cbn [mf_size fst].
+    destruct (inc_mid _ _ _ Is) as [N1 [_ [Is' Isf]]].
+    assert (If' := If). apply Forall_app in If'. destruct If' as [If0 Iff]. inversion Iff as [|? ? Fok _]; subst. clear Iff.
+    destruct Fok as [Frec [Ftorn [Frole Frefs]]]. unfold role_ok in Frole. rewrite Rf in Frole. destruct Frole as [Fseen Ft].
+    apply Forall_app in Dr. destruct Dr as [Dr0 _]. apply Forall_app in Dc. destruct Dc as [Dc0 Dcf].
+    set (rec := record_bytes crc t data).
+    destruct (k <? 20 + blen data) eqn:K.
+    + (* torn: a proper prefix of the record stays at the end of the file *)
+      apply Z.ltb_lt in K.
+      assert (Kn : (Z.to_nat k < 20 + length data)%nat) by (unfold blen in K; lia).
+      set (f' := set_torn f (firstn (Z.to_nat k) rec)).
+      assert (Ef : fdata f' = fdata f ++ firstn (Z.to_nat k) rec).
+      { unfold Inv.fdata, f'. simpl. rewrite Ft, app_nil_r. reflexivity. }
+      assert (DI : DInv (set_disk (upd_file (gf_name f) (fun d => write_at d (blen (fdata f)) (firstn (Z.to_nat k) rec)) (s_disk st1)) st1) (g0 ++ [f'])).
+      { constructor; ssimpl.
+        - rewrite Id. apply upd_file_fenc; auto. rewrite write_at_end. symmetry. exact Ef.
+        - apply Isf. reflexivity.
+        - apply Forall_app. split; auto. inversion Dcf; subst. constructor; auto.
+        - apply Forall_app. split; auto. constructor; auto. split; [exact Frec|].
+          exists t, data, (Z.to_nat k). repeat split; auto; lia. }
+      destruct (restart_inv _ _ DI) as [Ir Ar]. eexists. split; [exact Ir|].
+      unfold abs. rewrite Ar. simpl. f_equal.
+      rewrite !aents_snoc. change (gf_recs f') with (gf_recs f). rewrite <- aents_snoc, A1. reflexivity.
+    + (* every byte reached the disk: the second is there *)
+      apply Z.ltb_ge in K.
+      assert (Fk : firstn (Z.to_nat k) rec = rec).
+      { apply firstn_all2. unfold rec. rewrite record_bytes_length. unfold blen in K. lia. }
+      rewrite Fk.
+      set (r := GR magic_good None t data). set (f' := app_rec f r).
+      assert (Er : enc_rec r = rec) by reflexivity.
+      assert (Ef : fdata f' = fdata f ++ rec).
+      { unfold Inv.fdata, f'. simpl. rewrite Ft, !app_nil_r, enc_recs_app, enc_recs_cons, Er. simpl. rewrite app_nil_r. reflexivity. }
+      assert (DI : DInv (set_disk (upd_file (gf_name f) (fun d => write_at d (blen (fdata f)) rec) (s_disk st1)) st1) (g0 ++ [f'])).
+      { constructor; ssimpl.
+        - rewrite Id. apply upd_file_fenc; auto. rewrite write_at_end. symmetry. exact Ef.
+        - apply Isf. reflexivity.
+        - apply Forall_app. split; auto. inversion Dcf; subst. constructor; auto.
+        - apply Forall_app. split; auto. constructor; auto. split; [|exact Ftorn].
+          unfold f'. simpl. apply Forall_app. split; auto. constructor; auto.
+          unfold Inv.rec_ok. simpl. repeat split; auto; try lia; try (intros X; discriminate). }
+      destruct (restart_inv _ _ DI) as [Ir Ar]. eexists. split; [exact Ir|].
+      unfold abs. rewrite Ar. unfold a_restart. cbn [a_ents a_last fst]. f_equal.
+      rewrite !aents_snoc. unfold f'. cbn [gf_recs app_rec]. rewrite fents_app, app_assoc, <- aents_snoc, A1, !map_app. reflexivity.
+Qed.
+
+(* ---------- locating a known bucket in the ghost ---------- *)
+Lemma fknown_split n l : forall p i b, find_known i (fknown n p l) = Some b ->
+  exists l1 r l2, l = l1 ++ r :: l2 /\ gr_id r = Some i /\
+                  b = BK n (p + osum l1) (gr_time r) (blen (gr_body r)) (crc (gr_body r)) /\
+                  find_known i (fknown n p l1) = None.
+Proof.
+  induction l as [|r l IH]; intros p i b H; [discriminate|].
+  cbn [Inv.fknown] in H. rewrite find_known_app2 in H.
+  destruct (gr_id r) as [j|] eqn:E.
+  - simpl in H. destruct (j =? i) eqn:J.
+    + apply Z.eqb_eq in J. subst j. inversion H; subst. exists [], r, l. simpl. rewrite Z.add_0_r. auto.
+    + destruct (IH _ _ _ H) as [l1 [r' [l2 [-> [Ei [-> N]]]]]].
+      exists (r :: l1), r', l2. repeat split; auto.
+      * simpl. f_equal. lia.
+      * cbn [Inv.fknown]. rewrite E, find_known_app2. simpl. rewrite J. exact N.
+  - simpl in H. destruct (IH _ _ _ H) as [l1 [r' [l2 [-> [Ei [-> N]]]]]].
+    exists (r :: l1), r', l2. repeat split; auto.
+    + simpl. f_equal. lia.
+    + cbn [Inv.fknown]. rewrite E. simpl. exact N.
+Qed.
+
+Lemma known_split g : forall i b, find_known i (gknown g) = Some b ->
+  exists pre f post l1 r l2, g = pre ++ f :: post /\ gf_recs f = l1 ++ r :: l2 /\ gr_id r = Some i /\
+    b = BK (gf_name f) (osum l1) (gr_time r) (blen (gr_body r)) (crc (gr_body r)) /\
+    find_known i (gknown pre) = None /\ find_known i (fknown (gf_name f) 0 l1) = None.
+Proof.
+  induction g as [|f g IH]; intros i b H; [discriminate|].
+  change (gknown (f :: g)) with (fknown (gf_name f) 0 (gf_recs f) ++ gknown g) in H.
+  rewrite find_known_app2 in H.
+  destruct (find_known i (fknown (gf_name f) 0 (gf_recs f))) as [b'|] eqn:F.
+  - inversion H; subst b'. destruct (fknown_split _ _ _ _ _ F) as [l1 [r [l2 [E [Ei [-> N]]]]]].
+    exists [], f, g, l1, r, l2. simpl. repeat split; auto.
+  - destruct (IH _ _ H) as [pre [f' [post [l1 [r [l2 [-> [E [Ei [-> [N1 N2]]]]]]]]]]].
+    exists (f :: pre), f', post, l1, r, l2. repeat split; auto.
+    change (gknown (f :: pre)) with (fknown (gf_name f) 0 (gf_recs f) ++ gknown pre).
+    rewrite find_known_app2, F. exact N1.
+Qed.
+
+(* removing the entry of a key from an association list without duplicate keys *)
+Lemma assoc_remove (A B : list (Z * bucket)) i b :
+  NoDup (map fst (A ++ (i, b) :: B)) ->
+  NoDup (map fst (A ++ B)) /\
+  (forall j, find_known j (A ++ B) = if j =? i then None else find_known j (A ++ (i, b) :: B)) /\
+  ksize (A ++ B) = ksize (A ++ (i, b) :: B) - (b_size b + 20).
+Proof.
+  intros N. rewrite map_app in N. simpl in N.
+  assert (N' := NoDup_remove_1 _ _ _ N). assert (Ni := NoDup_remove_2 _ _ _ N).
+  rewrite <- map_app in N', Ni.
+  split; [exact N'|]. split.
+  - intros j. destruct (j =? i) eqn:J.
+    + apply Z.eqb_eq in J. subst. apply find_known_none. exact Ni.
+    + rewrite !find_known_app2. destruct (find_known j A); auto. simpl. rewrite Z.eqb_sym, J. reflexivity.
+  - rewrite !ksize_app. simpl. lia.
+Qed.
+
+(* ---------- eraseBucket ---------- *)
+Definition killm (m i : Z) (r : grec) : grec :=
+  match gr_id r with
+  | Some j => if j =? i then GR m None (gr_time r) (gr_body r) else r
+  | None => r
+  end.
+Definition map_recs (F : grec -> grec) (f : gfile) : gfile :=
+  GF (gf_name f) (gf_role f) (gf_next f) (map F (gf_recs f)) (gf_torn f).
+
+Lemma killm_noid m i l n p : find_known i (fknown n p l) = None -> map (killm m i) l = l.
+Proof.
+  revert p. induction l as [|r l IH]; intros p H; auto. cbn [Inv.fknown] in H. rewrite find_known_app2 in H.
+  simpl. destruct (gr_id r) as [j|] eqn:E.
+  - simpl in H. destruct (j =? i) eqn:J; [discriminate|]. f_equal.
+    + unfold killm. rewrite E, J. reflexivity.
+    + apply (IH (p + rsize r)). exact H.
+  - simpl in H. f_equal.
+    + unfold killm. rewrite E. reflexivity.
+    + apply (IH (p + rsize r)). exact H.
+Qed.
+
+Lemma rsize_killm m i r : rsize (killm m i r) = rsize r.
+Proof. unfold killm. destruct (gr_id r) as [j|]; auto. destruct (j =? i); auto. Qed.
+
+Lemma osum_map_killm m i l : osum (map (killm m i) l) = osum l.
+Proof. induction l; simpl; auto. rewrite rsize_killm, IHl. reflexivity. Qed.
+
+Lemma fents_cons_live r l : live r = true -> fents (r :: l) = to_ent r :: fents l.
+Proof. intros H. unfold fents. cbn [filter]. rewrite H. reflexivity. Qed.
+Lemma fents_cons_dead r l : live r = false -> fents (r :: l) = fents l.
+Proof. intros H. unfold fents. cbn [filter]. rewrite H. reflexivity. Qed.
+
+Lemma noid_filter_fents i l n p :
+  find_known i (fknown n p l) = None -> filter (fun e => negb (has_id i e)) (fents l) = fents l.
+Proof.
+  revert p. unfold fents. induction l as [|r l IH]; intros p H; auto. cbn [Inv.fknown] in H. rewrite find_known_app2 in H.
+  assert (Hr : find_known i (fknown n (p + rsize r) l) = None).
+  { destruct (gr_id r) as [j|]; simpl in H; auto. destruct (j =? i); [discriminate|auto]. }
+  simpl. destruct (live r); simpl; [|eapply IH; eauto].
+  assert (Hh : has_id i (to_ent r) = false).
+  { unfold has_id, to_ent. simpl. destruct (gr_id r) as [j|]; auto. simpl in H. destruct (j =? i); [discriminate|auto]. }
+  rewrite Hh. simpl. f_equal. eapply IH; eauto.
+Qed.
+
+Lemma noid_filter_aents i g :
+  find_known i (gknown g) = None -> filter (fun e => negb (has_id i e)) (aents g) = aents g.
+Proof.
+  induction g as [|f g IH]; intros H; auto.
+  change (gknown (f :: g)) with (fknown (gf_name f) 0 (gf_recs f) ++ gknown g) in H.
+  change (aents (f :: g)) with (fents (gf_recs f) ++ aents g).
+  rewrite find_known_app2 in H. destruct (find_known i (fknown (gf_name f) 0 (gf_recs f))) eqn:F; [discriminate|].
+  rewrite filter_app, (noid_filter_fents _ _ _ _ F), IH; auto.
+Qed.
+
+Lemma noid_find_aents i g : find_known i (gknown g) = None -> find (has_id i) (aents g) = None.
+Proof.
+  intros H. destruct (find (has_id i) (aents g)) as [e|] eqn:F; auto.
+  apply find_some in F. destruct F as [Hin He].
+  assert (In e (filter (fun e => negb (has_id i e)) (aents g))) by (rewrite noid_filter_aents; auto).
+  apply filter_In in H0. rewrite He in H0. destruct H0; discriminate.
+Qed.
+
+Lemma forall_mid {A} (P : A -> Prop) pre x post : Forall P (pre ++ x :: post) <-> Forall P pre /\ P x /\ Forall P post.
+Proof.
+  rewrite Forall_app. split.
+  - intros [H1 H2]. inversion H2; subst. auto.
+  - intros [H1 [H2 H3]]. auto.
+Qed.
+
+Lemma wr_ok_replace w pre f post f' :
+  wr_ok w (pre ++ f :: post) -> gf_name f' = gf_name f -> gf_role f' = gf_role f -> wr_ok w (pre ++ f' :: post).
+Proof.
+  intros H En Er. assert (Ew : is_wr f' = is_wr f) by (unfold is_wr; rewrite Er; reflexivity).
+  destruct w as [n|]; simpl in *.
+  - destruct H as [g0 [fw [E [Nw [Rw Fw]]]]].
+    destruct post as [|p0 post0].
+    + apply app_inj_tail in E. destruct E as [-> ->]. exists g0, f'. repeat split; auto; congruence.
+    + destruct (exists_last (l := p0 :: post0) ltac:(discriminate)) as [post' [x Ep]]. rewrite Ep in *.
+      rewrite app_comm_cons, app_assoc in E. apply app_inj_tail in E. destruct E as [<- ->].
+      exists (pre ++ f' :: post'), fw. rewrite app_comm_cons, app_assoc. repeat split; auto.
+      apply forall_mid in Fw. apply forall_mid. rewrite Ew. exact Fw.
+  - apply forall_mid in H. apply forall_mid. rewrite Ew. exact H.
+Qed.
+
+Lemma wr_ok_delete w pre f post :
+  wr_ok w (pre ++ f :: post) -> is_wr f = false -> wr_ok w (pre ++ post).
+Proof.
+  intros H Ew. destruct w as [n|]; simpl in *.
+  - destruct H as [g0 [fw [E [Nw [Rw Fw]]]]].
+    destruct post as [|p0 post0].
+    + apply app_inj_tail in E. destruct E as [-> ->]. unfold is_wr in Ew. rewrite Rw in Ew. discriminate.
+    + destruct (exists_last (l := p0 :: post0) ltac:(discriminate)) as [post' [x Ep]]. rewrite Ep in *.
+      rewrite app_comm_cons, app_assoc in E. apply app_inj_tail in E. destruct E as [<- ->].
+      exists (pre ++ post'), fw. rewrite app_assoc. repeat split; auto.
+      apply forall_mid in Fw. apply Forall_app. tauto.
+  - apply forall_mid in H. apply Forall_app. tauto.
+Qed.
+
+Lemma filter_mid_out {A} (P : A -> bool) pre x post : P x = false -> filter P (pre ++ x :: post) = filter P pre ++ filter P post.
+Proof. intros H. rewrite filter_app. simpl. rewrite H. reflexivity. Qed.
+
+Lemma filter_mid_in {A} (P : A -> bool) pre x post : P x = true -> filter P (pre ++ x :: post) = filter P pre ++ x :: filter P post.
+Proof. intros H. rewrite filter_app. simpl. rewrite H. reflexivity. Qed.
+
+Lemma names_filter_replace (P : gfile -> bool) pre f post f' :
+  P f' = P f -> gf_name f' = gf_name f ->
+  map gf_name (filter P (pre ++ f' :: post)) = map gf_name (filter P (pre ++ f :: post)).
+Proof.
+  intros HP HN. destruct (P f) eqn:E.
+  - rewrite !filter_mid_in by congruence. rewrite !map_app. simpl. rewrite HN. reflexivity.
+  - rewrite !filter_mid_out by congruence. reflexivity.
+Qed.
+
+(* the record of a known bucket, rewritten with another magic and without id *)
+Definition set_recs (f : gfile) (l : list grec) : gfile := GF (gf_name f) (gf_role f) (gf_next f) l (gf_torn f).
+
+Lemma fdata_set_magic f l1 r l2 k :
+  gf_recs f = l1 ++ r :: l2 -> gr_magic r = magic_good -> 0 <= k <= 4 ->
+  write_at (fdata f) (osum l1) (firstn (Z.to_nat k) magic_bytes_deleted) =
+  fdata (set_recs f (l1 ++ GR (if k <=? 2 then magic_good else if k =? 3 then magic_torn_deleted else magic_deleted) None (gr_time r) (gr_body r) :: l2)).
+Proof.
+  intros E M K. unfold Inv.fdata. cbn [gf_recs gf_torn set_recs]. rewrite E, !enc_recs_app, !enc_recs_cons. unfold Inv.enc_rec. cbn [gr_magic gr_time gr_body].
+  rewrite M, <- (blen_enc_recs crc l1), <- !app_assoc.
+  rewrite erase_overwrite_torn by exact K. reflexivity.
+Qed.
+
+Lemma erase_inv st g id b :
+  Inv st g -> find_known id (gknown g) = Some b ->
+  exists g', Inv (erase st id) g' /\ aents g' = filter (fun e => negb (has_id id e)) (aents g) /\
+             s_last_id (erase st id) = s_last_id st.
+Proof.
+  intros I K.
+  destruct (known_split g id b K) as [pre [f [post [l1 [r [l2 [-> [El [Ei [Eb [Kpre Kl1]]]]]]]]]]].
+  destruct I as [Id Is Ic Ir If Ird Iw Iws Iwr Io Ik Ind Iid Iks It Il Iod].
+  assert (Of := Io f ltac:(apply in_mid; auto)).
+  destruct (inc_mid _ _ _ Is) as [N1 [N2 [Is' Isf]]].
+  assert (If' := If). apply forall_mid in If'. destruct If' as [If0 [Fok If1]].
+  destruct Fok as [Frec [Ftorn [Frole Frefs]]].
+  assert (Rr : rec_ok r) by (rewrite El in Frec; apply forall_mid in Frec; tauto).
+  destruct Rr as [_ [Rt [Rb Rl]]].
+  assert (Hg : has_gid r = true) by (unfold has_gid; rewrite Ei; reflexivity).
+  assert (Hm : gr_magic r = magic_good) by (apply Z.eqb_eq; apply Rl; exact Hg).
+  assert (HW : is_W f = false).
+  { destruct (is_W f) eqn:W; auto. unfold is_W in W. unfold role_ok in Frole. destruct (gf_role f); try discriminate.
+    rewrite El in Frole. apply forall_mid in Frole. destruct Frole as [_ [U _]]. unfold unseen in U. congruence. }
+  rewrite HW in Of.
+  set (n := gf_name f) in *.
+  set (r' := GR magic_deleted None (gr_time r) (gr_body r)).
+  set (f' := set_recs f (l1 ++ r' :: l2)).
+  assert (E1 : write_at (fdata f) (osum l1) magic_bytes_deleted = fdata f').
+  { change magic_bytes_deleted with (firstn (Z.to_nat 4) magic_bytes_deleted). rewrite (fdata_set_magic f l1 r l2 4 El Hm) by lia. reflexivity. }
+  assert (E2 : blen (fdata f') = blen (fdata f)).
+  { rewrite !blen_fdata. unfold f'. simpl. rewrite El, !osum_app. reflexivity. }
+  assert (Kf : fknown n 0 (gf_recs f) = fknown n 0 l1 ++ (id, b) :: fknown n (osum l1 + rsize r) l2).
+  { rewrite El, fknown_app. simpl. rewrite Ei, Eb. reflexivity. }
+  assert (Kf' : fknown n 0 (gf_recs f') = fknown n 0 l1 ++ fknown n (osum l1 + rsize r) l2).
+  { unfold f'. simpl. rewrite fknown_app. reflexivity. }
+  assert (Nn : nids (gf_recs f') = nids (gf_recs f) - 1).
+  { unfold f'. simpl. rewrite El, !nids_app. unfold nids at 2 4. simpl. rewrite Hg. simpl length. lia. }
+  set (A := gknown pre ++ fknown n 0 l1). set (B := fknown n (osum l1 + rsize r) l2 ++ gknown post).
+  assert (GA : gknown (pre ++ f :: post) = A ++ (id, b) :: B).
+  { rewrite gknown_app. change (gknown (f :: post)) with (fknown n 0 (gf_recs f) ++ gknown post).
+    rewrite Kf. unfold A, B. rewrite <- !app_assoc. reflexivity. }
+  assert (GA' : gknown (pre ++ f' :: post) = A ++ B).
+  { rewrite gknown_app. change (gknown (f' :: post)) with (fknown n 0 (gf_recs f') ++ gknown post).
+    rewrite Kf'. unfold A, B. rewrite <- !app_assoc. reflexivity. }
+  rewrite GA in *. destruct (assoc_remove A B id b Ind) as [ND [FK KS]].
+  assert (NB : ~ In id (map fst (A ++ B))).
+  { rewrite map_app in Ind. simpl in Ind. apply NoDup_remove_2 in Ind. rewrite map_app. exact Ind. }
+  assert (Kl2 : find_known id (fknown n (osum l1 + rsize r) l2) = None).
+  { apply find_known_none. intros X. apply NB. unfold B. rewrite !map_app, !in_app_iff. auto. }
+  assert (Kpost : find_known id (gknown post) = None).
+  { apply find_known_none. intros X. apply NB. unfold B. rewrite !map_app, !in_app_iff. auto. }
+  assert (Em : gf_recs f' = map (killm magic_deleted id) (gf_recs f)).
+  { unfold f'. simpl. rewrite El, map_app. simpl. rewrite (killm_noid _ _ _ _ _ Kl1), (killm_noid _ _ _ _ _ Kl2).
+    unfold killm at 1. rewrite Ei, Z.eqb_refl. reflexivity. }
+  assert (Lr : live r = true) by (unfold live; rewrite Hm; reflexivity).
+  assert (Hi : has_id id (to_ent r) = true) by (unfold has_id, to_ent; simpl; rewrite Ei; apply Z.eqb_refl).
+  assert (Ae : aents (pre ++ f' :: post) = filter (fun e => negb (has_id id e)) (aents (pre ++ f :: post))).
+  { rewrite !aents_app. change (aents (f' :: post)) with (fents (gf_recs f') ++ aents post).
+    change (aents (f :: post)) with (fents (gf_recs f) ++ aents post).
+    rewrite !filter_app, (noid_filter_aents _ _ Kpre), (noid_filter_aents _ _ Kpost).
+    change (gf_recs f') with (l1 ++ r' :: l2). rewrite El, !fents_app, !filter_app, (noid_filter_fents _ _ _ _ Kl1).
+    rewrite (fents_cons_live r l2 Lr), (fents_cons_dead r' l2 eq_refl).
+    cbn [filter]. rewrite Hi. cbn [negb]. rewrite (noid_filter_fents _ _ _ _ Kl2). reflexivity. }
+  assert (Rf' : refs f' = refs f - 1) by (unfold refs; rewrite Nn; unfold f', is_R, is_wr; simpl; lia).
+  assert (Rok : Forall rec_ok (gf_recs f')).
+  { rewrite Em. rewrite Forall_map. eapply Forall_impl; [|exact Frec]. intros x Hx. unfold killm.
+    destruct (gr_id x) as [j|]; auto. destruct (j =? id); auto. destruct Hx as [_ [X1 [X2 _]]].
+    unfold Inv.rec_ok. simpl. repeat split; auto; try lia; try (intros; discriminate); try (right; reflexivity). }
+  assert (SK : forall x, seen x -> seen (killm magic_deleted id x)).
+  { intros x Hx. unfold killm. destruct (gr_id x) as [j|]; auto. destruct (j =? id); auto. intros L. discriminate L. }
+  assert (UK : forall x, unseen x -> unseen (killm magic_deleted id x)).
+  { intros x Hx. unfold killm. unfold unseen in Hx. rewrite Hx. exact Hx. }
+  assert (Role : role_ok f').
+  { unfold role_ok in *. change (gf_role f') with (gf_role f). change (gf_torn f') with (gf_torn f). change (gf_next f') with (gf_next f).
+    rewrite Em. destruct (gf_role f).
+    - rewrite Forall_map. eapply Forall_impl; [|exact Frole]. exact SK.
+    - destruct Frole as [Q1 [Q2 [Q3 Q4]]]. rewrite map_length, firstn_map, skipn_map, !Forall_map, osum_map_killm.
+      repeat split; auto; eapply Forall_impl; eauto.
+    - rewrite Forall_map. eapply Forall_impl; [|exact Frole]. exact UK.
+    - destruct Frole as [Q1 Q2]. split; auto. rewrite Forall_map. eapply Forall_impl; [|exact Q1]. exact SK. }
+  pose proof (nids_nonneg (gf_recs f')) as Nnn.
+  assert (K0 : find_known id (s_known st) = Some b) by (rewrite Ik; exact K).
+  assert (Bfile : b_file b = n) by (rewrite Eb; reflexivity).
+  assert (Bpos : b_pos b = osum l1) by (rewrite Eb; reflexivity).
+  assert (Bsize : b_size b = blen (gr_body r)) by (rewrite Eb; reflexivity).
+  assert (KN : forall i, find_known i (del_known id (s_known st)) = find_known i (A ++ B)).
+  { intros i. rewrite FK. destruct (i =? id) eqn:J.
+    - apply Z.eqb_eq in J. subst. apply find_known_del.
+    - apply Z.eqb_neq in J. rewrite find_known_del_other by exact J. apply Ik. }
+  assert (IDR : Forall (fun p => 0 < fst p <= s_last_id st) (A ++ B)).
+  { apply forall_mid in Iid. apply Forall_app. tauto. }
+  assert (Rnn : 0 <= refs f') by (unfold refs; destruct (is_R f'), (is_wr f'); lia).
+  unfold erase. rewrite K0, Bfile, Bpos, Bsize.
+  assert (D1 : upd_file n (fun d => write_at d (osum l1) magic_bytes_deleted) (s_disk st) = map fenc (pre ++ f' :: post)).
+  { rewrite Id. apply upd_file_fenc; auto. }
+  unfold unref. ssimpl. rewrite Of. cbn [mf_ref mf_size].
+  destruct (refs f - 1 =? 0) eqn:E.
+  - (* last reference: the file is removed *)
+    apply Z.eqb_eq in E.
+    assert (HR : is_R f = false) by (unfold refs in *; destruct (is_R f), (is_wr f); auto; lia).
+    assert (Hwr : is_wr f = false) by (unfold refs in *; destruct (is_R f), (is_wr f); auto; lia).
+    assert (N0 : nids (gf_recs f') = 0) by (unfold refs in *; rewrite HR, Hwr in *; lia).
+    assert (Fe : fents (gf_recs f') = []).
+    { apply seen_noid_nolive; auto. unfold role_ok in Role. change (gf_role f') with (gf_role f) in Role.
+      unfold is_R, is_W in *. destruct (gf_role f); try discriminate; tauto. }
+    assert (GD : gknown (pre ++ post) = A ++ B).
+    { rewrite <- GA', !gknown_app. change (gknown (f' :: post)) with (fknown n 0 (gf_recs f') ++ gknown post).
+      rewrite (nids0_fknown _ _ _ N0). reflexivity. }
+    exists (pre ++ post). split; [|split; [|reflexivity]].
+    2:{ rewrite <- Ae, !aents_app. change (aents (f' :: post)) with (fents (gf_recs f') ++ aents post). rewrite Fe. reflexivity. }
+    constructor; ssimpl.
+    + rewrite D1. change n with (gf_name f'). apply del_file_fenc; auto.
+    + exact Is'.
+    + apply forall_mid in Ic. apply Forall_app. tauto.
+    + rewrite map_app in *. simpl in Ir. apply ndec_app_inv in Ir. destruct Ir as [R1 [R2 R3]]. simpl in R2.
+      apply ndec_app; try tauto. intros x y Hx Hy. apply R3; simpl; auto.
+    + apply Forall_app. tauto.
+    + rewrite filter_mid_out in Ird by exact HR. rewrite filter_app. exact Ird.
+    + rewrite filter_mid_out in Iw by exact HW. rewrite filter_app. exact Iw.
+    + exact Iws.
+    + eapply wr_ok_delete; eauto.
+    + intros x Hx. rewrite find_open_del_other.
+      * apply Io. apply in_mid. apply in_app_iff in Hx. tauto.
+      * apply (name_neq_pre pre f post x Is). apply in_app_iff in Hx. tauto.
+    + intros i. rewrite GD. apply KN.
+    + rewrite GD. exact ND.
+    + rewrite GD. exact IDR.
+    + rewrite GD, KS, Iks, Bsize. reflexivity.
+    + rewrite It, !gtotal_app. simpl. lia.
+    + exact Il.
+    + apply forall_del_open. exact Iod.
+  - (* other references remain *)
+    apply Z.eqb_neq in E.
+    exists (pre ++ f' :: post). split; [|split; [exact Ae|reflexivity]].
+    constructor; ssimpl.
+    + exact D1.
+    + apply Isf. reflexivity.
+    + apply forall_mid in Ic. apply forall_mid. exact Ic.
+    + rewrite !map_app in *. exact Ir.
+    + apply forall_mid. repeat split; try tauto. unfold Inv.file_ok. repeat split; auto. intros _. lia.
+    + rewrite (names_filter_replace is_R pre f post f'); auto.
+    + rewrite filter_mid_out in Iw by exact HW. rewrite filter_mid_out by exact HW. exact Iw.
+    + exact Iws.
+    + eapply wr_ok_replace; eauto.
+    + intros x Hx. apply in_mid in Hx. destruct Hx as [Hx|[->|Hx]].
+      * rewrite find_open_upd_other; [apply Io; apply in_mid; auto| |intros; reflexivity].
+        apply (name_neq_pre pre f post x Is). auto.
+      * change (gf_name f') with n. erewrite find_open_upd_same; [|exact Of|reflexivity].
+        change (is_W f') with (is_W f). rewrite HW, E2, Rf'. unfold add_ref. cbn [mf_name mf_next mf_size mf_ref]. reflexivity.
+      * rewrite find_open_upd_other; [apply Io; apply in_mid; auto| |intros; reflexivity].
+        apply (name_neq_pre pre f post x Is). auto.
+    + intros i. rewrite GA'. apply KN.
+    + rewrite GA'. exact ND.
+    + rewrite GA'. exact IDR.
+    + rewrite GA', KS, Iks, Bsize. reflexivity.
+    + rewrite It, !gtotal_app. simpl. rewrite E2. reflexivity.
+    + exact Il.
+    + apply forall_upd_open; auto.
+Qed.
+
+(* ---------- GetBucket ---------- *)
+Lemma find_app {A} (P : A -> bool) a b : find P (a ++ b) = match find P a with Some x => Some x | None => find P b end.
+Proof. induction a as [|x a IH]; simpl; auto. destruct (P x); auto. Qed.
+
+Lemma noid_find_fents i l n p : find_known i (fknown n p l) = None -> find (has_id i) (fents l) = None.
+Proof.
+  intros H. destruct (find (has_id i) (fents l)) as [e|] eqn:F; auto.
+  apply find_some in F. destruct F as [Hin He].
+  assert (X : In e (filter (fun e => negb (has_id i e)) (fents l))) by (rewrite (noid_filter_fents _ _ _ _ H); auto).
+  apply filter_In in X. rewrite He in X. destruct X; discriminate.
+Qed.
+
+Lemma get_inv st g id t :
+  Inv st g -> get crc st id t = (st, a_get (abs st g) id t).
+Proof.
+  intros I. unfold get, a_get. simpl a_ents. rewrite (I_known _ _ _ _ I).
+  destruct (find_known id (gknown g)) as [b|] eqn:K.
+  2:{ rewrite (noid_find_aents _ _ K). reflexivity. }
+  destruct (known_split g id b K) as [pre [f [post [l1 [r [l2 [-> [El [Ei [Eb [Kpre Kl1]]]]]]]]]]].
+  destruct I as [Id Is Ic Ir If Ird Iw Iws Iwr Io Ik Ind Iid Iks It Il Iod].
+  destruct (inc_mid _ _ _ Is) as [N1 _].
+  apply forall_mid in If. destruct If as [_ [[Frec _] _]].
+  assert (Rr : rec_ok r) by (rewrite El in Frec; apply forall_mid in Frec; tauto).
+  destruct Rr as [_ [_ [_ Rl]]].
+  assert (Hg : has_gid r = true) by (unfold has_gid; rewrite Ei; reflexivity).
+  assert (Lr : live r = true) by auto.
+  assert (Hm : gr_magic r = magic_good) by (apply Z.eqb_eq; exact Lr).
+  assert (Hi : has_id id (to_ent r) = true) by (unfold has_id, to_ent; simpl; rewrite Ei; apply Z.eqb_refl).
+  assert (Fe : find (has_id id) (aents (pre ++ f :: post)) = Some (to_ent r)).
+  { rewrite aents_app, find_app, (noid_find_aents _ _ Kpre).
+    change (aents (f :: post)) with (fents (gf_recs f) ++ aents post).
+    rewrite El, fents_app, <- app_assoc, find_app, (noid_find_fents _ _ _ _ Kl1), (fents_cons_live r l2 Lr).
+    simpl. rewrite Hi. reflexivity. }
+  rewrite Fe. rewrite Eb. cbn [b_time b_file b_pos b_size b_crc to_ent a_time a_body].
+  destruct (gr_time r =? t); cbn [negb]; [|reflexivity].
+  rewrite Id, (find_file_fenc crc pre f post N1).
+  assert (Sl : slice (fdata f) (osum l1 + 20) (blen (gr_body r)) = gr_body r).
+  { unfold Inv.fdata. rewrite El, enc_recs_app, enc_recs_cons. unfold Inv.enc_rec at 1.
+    rewrite <- !app_assoc. rewrite (app_assoc (enc_recs l1)).
+    apply slice_mid; auto; rewrite blen_app, blen_enc_recs; f_equal; unfold blen; rewrite enc_header_length; reflexivity. }
+  rewrite Sl. rewrite Z.ltb_irrefl, Z.eqb_refl. reflexivity.
+Qed.
+
+(* ---------- an erase torn after k bytes, then the start ---------- *)
+Lemma firstn_clip k : firstn (Z.to_nat k) magic_bytes_deleted = firstn (Z.to_nat (Z.max 0 (Z.min k 4))) magic_bytes_deleted.
+Proof.
+  destruct (Z_le_gt_dec k 0); [replace (Z.to_nat k) with 0%nat by lia; replace (Z.to_nat (Z.max 0 (Z.min k 4))) with 0%nat by lia; reflexivity|].
+  destruct (Z_le_gt_dec k 4); [replace (Z.max 0 (Z.min k 4)) with k by lia; reflexivity|].
+  replace (Z.max 0 (Z.min k 4)) with 4 by lia. rewrite !firstn_all2; auto; unfold magic_bytes_deleted; rewrite le_bytes_length; lia.
+Qed.
+
+Lemma erase_torn_inv st g id k :
+  Inv st g -> (k = 3 -> rep = true) ->
+  exists g', Inv (erase_torn st id k) g' /\
+             abs (erase_torn st id k) g' = a_restart (if k <=? 2 then abs st g else a_erase (abs st g) id).
+Proof.
+  intros I Hrep. unfold erase_torn. rewrite (I_known _ _ _ _ I).
+  destruct (find_known id (gknown g)) as [b|] eqn:K.
+  2:{ destruct (restart_inv st g (inv_dinv _ _ I)) as [Ir Ar]. exists (grestart g). split; auto.
+      unfold abs. rewrite Ar. unfold a_erase. simpl a_ents. rewrite (noid_filter_aents _ _ K). destruct (k <=? 2); reflexivity. }
+  destruct (known_split g id b K) as [pre [f [post [l1 [r [l2 [-> [El [Ei [Eb [Kpre Kl1]]]]]]]]]]].
+  assert (D := inv_dinv _ _ I). destruct D as [Dd Ds Dc Dr].
+  destruct I as [Id Is Ic Ir If Ird Iw Iws Iwr Io Ik Ind Iid Iks It Il Iod].
+  destruct (inc_mid _ _ _ Is) as [N1 [N2 [Is' Isf]]].
+  assert (Dr' := Dr). apply forall_mid in Dr'. destruct Dr' as [Dr0 [[Frec Ftorn] Dr1]].
+  assert (Rr : rec_ok r) by (rewrite El in Frec; apply forall_mid in Frec; tauto).
+  destruct Rr as [_ [Rt [Rb Rl]]].
+  assert (Hg : has_gid r = true) by (unfold has_gid; rewrite Ei; reflexivity).
+  assert (Lr : live r = true) by auto.
+  assert (Hm : gr_magic r = magic_good) by (apply Z.eqb_eq; exact Lr).
+  assert (Hi : has_id id (to_ent r) = true) by (unfold has_id, to_ent; simpl; rewrite Ei; apply Z.eqb_refl).
+  set (kk := Z.max 0 (Z.min k 4)).
+  set (m := if kk <=? 2 then magic_good else if kk =? 3 then magic_torn_deleted else magic_deleted).
+  set (r' := GR m None (gr_time r) (gr_body r)).
+  set (f' := set_recs f (l1 ++ r' :: l2)).
+  assert (Kk : 0 <= kk <= 4) by (unfold kk; lia).
+  assert (E1 : write_at (fdata f) (osum l1) (firstn (Z.to_nat k) magic_bytes_deleted) = fdata f').
+  { rewrite firstn_clip. fold kk. rewrite (fdata_set_magic f l1 r l2 kk El Hm Kk). reflexivity. }
+  rewrite Eb. cbn [b_file b_pos].
+  assert (DI : DInv (set_disk (upd_file (gf_name f) (fun d => write_at d (osum l1) (firstn (Z.to_nat k) magic_bytes_deleted)) (s_disk st)) st)
+                    (pre ++ f' :: post)).
+  { constructor; ssimpl.
+    - rewrite Id. apply upd_file_fenc; auto.
+    - apply Isf. reflexivity.
+    - apply forall_mid in Dc. apply forall_mid. exact Dc.
+    - apply forall_mid. repeat split; auto. unfold f'. cbn [gf_recs set_recs]. rewrite El in Frec.
+      apply forall_mid in Frec. apply forall_mid. repeat split; try tauto.
+      unfold Inv.rec_ok. cbn [gr_magic gr_time gr_body r']. repeat split; auto; try lia.
+      + unfold m. destruct (kk <=? 2); auto. right. destruct (kk =? 3) eqn:E3; [|reflexivity].
+        apply Z.eqb_eq in E3. assert (k = 3) by (unfold kk in E3; lia). rewrite (Hrep H). reflexivity.
+      + intros X. unfold has_gid, r' in X. discriminate X. }
+  destruct (restart_inv _ _ DI) as [Irr Ar]. eexists. split; [exact Irr|].
+  unfold abs. rewrite Ar. unfold a_restart, a_erase. cbn [a_ents a_last]. f_equal.
+  rewrite !aents_app. change (aents (f' :: post)) with (fents (gf_recs f') ++ aents post).
+  change (aents (f :: post)) with (fents (gf_recs f) ++ aents post).
+  change (gf_recs f') with (l1 ++ r' :: l2). rewrite El, !fents_app.
+  set (A := gknown pre ++ fknown (gf_name f) 0 l1). set (B := fknown (gf_name f) (osum l1 + rsize r) l2 ++ gknown post).
+  assert (Kf : fknown (gf_name f) 0 (gf_recs f) = fknown (gf_name f) 0 l1 ++ (id, b) :: fknown (gf_name f) (osum l1 + rsize r) l2).
+  { rewrite El, fknown_app. simpl. rewrite Ei, Eb. reflexivity. }
+  assert (GA : gknown (pre ++ f :: post) = A ++ (id, b) :: B).
+  { rewrite gknown_app. change (gknown (f :: post)) with (fknown (gf_name f) 0 (gf_recs f) ++ gknown post).
+    rewrite Kf. unfold A, B. rewrite <- !app_assoc. reflexivity. }
+  assert (NB : ~ In id (map fst (A ++ B))).
+  { rewrite GA, map_app in Ind. simpl in Ind. apply NoDup_remove_2 in Ind. rewrite map_app. exact Ind. }
+  assert (Kl2 : find_known id (fknown (gf_name f) (osum l1 + rsize r) l2) = None).
+  { apply find_known_none. intros X. apply NB. unfold B. rewrite !map_app, !in_app_iff. auto. }
+  assert (Kpost : find_known id (gknown post) = None).
+  { apply find_known_none. intros X. apply NB. unfold B. rewrite !map_app, !in_app_iff. auto. }
+  destruct (k <=? 2) eqn:K2.
+  - apply Z.leb_le in K2. assert (Lr' : live r' = true).
+    { unfold live, r', m. cbn [gr_magic]. assert (X : kk <=? 2 = true) by (apply Z.leb_le; unfold kk; lia). rewrite X. reflexivity. }
+    cbn [a_ents]. rewrite (fents_cons_live r l2 Lr), (fents_cons_live r' l2 Lr'). rewrite !map_app. cbn [map]. reflexivity.
+  - apply Z.leb_gt in K2. assert (Lr' : live r' = false).
+    { unfold live, r', m. cbn [gr_magic]. assert (X : kk <=? 2 = false) by (apply Z.leb_gt; unfold kk; lia). rewrite X.
+      destruct (kk =? 3); reflexivity. }
+    cbn [a_ents]. rewrite (fents_cons_live r l2 Lr), (fents_cons_dead r' l2 Lr').
+    rewrite !filter_app, (noid_filter_aents _ _ Kpre), (noid_filter_aents _ _ Kpost), (noid_filter_fents _ _ _ _ Kl1).
+    cbn [filter]. rewrite Hi. cbn [negb]. rewrite (noid_filter_fents _ _ _ _ Kl2). reflexivity.
 Qed.
 
 End S.
